@@ -6,6 +6,9 @@ use crate::mach::Regs;
 use crate::refprog::Ev;
 use regex::bytes::Regex;
 
+/// encodings of service-written bytes >= 0x80 seen in all conforming runs of this process (see Matcher)
+pub static HIGH_BYTE_ENCODINGS: std::sync::Mutex<[u8; 256]> = std::sync::Mutex::new([0; 256]);
+
 #[derive(Clone, Debug)]
 pub struct ObsMismatch {
     pub field: String,
@@ -20,6 +23,8 @@ pub struct Matcher<'a> {
     /// source lines (1-based index = line number), comment-stripped text is compared
     pub src_lines: Vec<String>,
     pub check_text: bool,
+    /// per byte value >= 0x80 written by a service: bit 0 = seen raw, bit 1 = seen as UTF-8
+    pub high_byte_encodings: [u8; 256],
 }
 
 fn lossy(b: &[u8]) -> String {
@@ -48,7 +53,7 @@ impl<'a> Matcher<'a> {
         for l in src.split('\n') {
             src_lines.push(strip_comment(l));
         }
-        Matcher { out, pos: 0, src_lines, check_text: true }
+        Matcher { out, pos: 0, src_lines, check_text: true, high_byte_encodings: [0; 256] }
     }
 
     fn rest(&self) -> &'a [u8] {
@@ -290,13 +295,63 @@ impl<'a> Matcher<'a> {
                     while self.rest().starts_with(b">>> ") {
                         self.pos += 4;
                     }
-                    // raw bytes, or the UTF-8 encoding of the same code points
+                    // every byte below 0x80 as itself; a byte of 0x80 or more as the raw byte or as the UTF-8
+                    // encoding of the same code point - which of the two is recorded per byte value, so that a
+                    // check can demand that the choice does not depend on the neighbouring bytes
                     let r = self.rest();
-                    let utf8: Vec<u8> = b.iter().map(|c| *c as char).collect::<String>().into_bytes();
-                    if r.starts_with(b) && (b.iter().all(|c| *c < 0x80) || !r.starts_with(&utf8)) {
-                        self.pos += b.len();
-                    } else if r.starts_with(&utf8) {
-                        self.pos += utf8.len();
+                    fn walk(exp: &[u8], out: &[u8], used: &mut Vec<(u8, bool)>) -> Option<usize> {
+                        if exp.is_empty() {
+                            return Some(0);
+                        }
+                        let b0 = exp[0];
+                        if b0 < 0x80 {
+                            if out.first() == Some(&b0) {
+                                return walk(&exp[1..], &out[1..], used).map(|n| n + 1);
+                            }
+                            return None;
+                        }
+                        let enc = [0xC0 | (b0 >> 6), 0x80 | (b0 & 0x3F)];
+                        let mark = used.len();
+                        if out.len() >= 2 && out[0] == enc[0] && out[1] == enc[1] {
+                            used.push((b0, true));
+                            if let Some(n) = walk(&exp[1..], &out[2..], used) {
+                                return Some(n + 2);
+                            }
+                            used.truncate(mark);
+                        }
+                        if out.first() == Some(&b0) {
+                            used.push((b0, false));
+                            if let Some(n) = walk(&exp[1..], &out[1..], used) {
+                                return Some(n + 1);
+                            }
+                            used.truncate(mark);
+                        }
+                        None
+                    }
+                    let mut used: Vec<(u8, bool)> = Vec::new();
+                    // (long runs of one repeated byte are matched without recursion)
+                    let uniform = b.len() > 400 && b.iter().all(|x| *x == b[0]);
+                    let matched = if uniform {
+                        let utf8: Vec<u8> = b.iter().map(|c| *c as char).collect::<String>().into_bytes();
+                        if b[0] >= 0x80 && r.starts_with(&utf8) {
+                            used.push((b[0], true));
+                            Some(utf8.len())
+                        } else if r.starts_with(b) {
+                            if b[0] >= 0x80 {
+                                used.push((b[0], false));
+                            }
+                            Some(b.len())
+                        } else {
+                            None
+                        }
+                    } else {
+                        walk(b, r, &mut used)
+                    };
+                    if let Some(n) = matched {
+                        self.pos += n;
+                        for (byte, utf8) in used {
+                            self.high_byte_encodings[byte as usize] |= if utf8 { 2 } else { 1 };
+                        }
                     } else {
                         return Err(ObsMismatch {
                             field: "int-output".into(),
@@ -350,6 +405,10 @@ impl<'a> Matcher<'a> {
             self.skip_ws();
             let r = self.rest();
             if r.is_empty() {
+                let mut g = HIGH_BYTE_ENCODINGS.lock().unwrap();
+                for k in 0..256 {
+                    g[k] |= self.high_byte_encodings[k];
+                }
                 return Ok(());
             }
             let save = self.pos;
